@@ -180,10 +180,8 @@ def run(ctx):
         todo = keep
     for sp in todo:
         for (s, periodic) in variants(sp):
-            if periodic and s.ncells < s.p + 1:
-                continue
             check_space(ctx, s, periodic, rng, quick, stats)
-    pool = [v for s in todo if s.ncells >= 2 for v in variants(s) if not (v[1] and v[0].ncells < v[0].p + 1)]
+    pool = [v for s in todo if s.ncells >= 2 for v in variants(s)]
     combos = 0
     for want in ((False, False), (True, False), (False, True), (True, True)):
         cand1 = [v for v in pool if v[1] == want[0]]
